@@ -16,7 +16,8 @@ RULE = ("Rule-based state machine over a pool of up to 6 circuits and 4 states. 
         "receiver of a successful mutating call is unchanged, pooled states are unchanged, a call that raised left "
         "its receiver unchanged, and the qubit/tomography module-level gate tables are unchanged. Non-trivial = a "
         "history in which a circuit served as argument >= 2 times with a parent owning an ancilla, or a rejected "
-        "call hit a non-empty circuit; distinct = distinct recorded history.")
+        "call hit a non-empty circuit; distinct = distinct recorded history."
+        " Also: calls with unusual argument forms made on a copy of a pooled circuit (whatever the library decides, a call that raises must leave the copy unchanged), and swap-heavy circuits from which a second circuit is derived (copy / + / add) before either is rewritten in place.")
 ASSUMPTIONS = [
     "shared Parameter objects are not used in this machine (excepted by the property)",
     "State(list) keeping the caller's list is outside 'through the API' and not asserted",
